@@ -564,6 +564,22 @@ pub fn wall_clock_part(judge: fn(&Script, &Observation) -> CaseResult) -> Box<dy
     })
 }
 
+/// Sessions that start with the password handshake.
+fn password_sessions_part() -> Box<dyn crate::core::Part> {
+    Box::new(RandomPart {
+        name: "password_sessions",
+        rule: "proptest: histories of 1-8 steps on a connection opened with Client::connect_with_password (accepted password; any segmentation of the server's output, so the verdict on the password may arrive byte by byte): same judge as 'histories' - in particular nothing may be written while the reply to the password is unread. non-trivial as there",
+        cases: (6_000, 300_000),
+        strategy: Box::new(|_t| (simgen::script(3, 3, 8), "[a-zA-Z0-9 ]{1,12}").boxed()),
+        check: Box::new(|(s, pw): &(Script, String)| {
+            let obs = sim::run_with(s, sim::Connect::Password(sim::Password { password: pw.clone(), verdict: sim::PasswordVerdict::Ok, cut: None }));
+            let mut r = judge_c05(s, &obs);
+            r.class("connected_with_password");
+            r
+        }),
+    })
+}
+
 /// C05 under faults: whatever goes wrong, what the client has written is a prefix of a legal session.
 fn legal_under_faults_part() -> Box<dyn crate::core::Part> {
     Box::new(RandomPart {
@@ -617,7 +633,7 @@ pub fn c05(_tier: Tier) -> Property {
                 let obs = sim::run(s);
                 judge_c05(s, &obs)
             }),
-        }), systematic_part(judge_c05), legal_under_faults_part(), long_sessions_part(judge_c05), wall_clock_part(judge_c05), crate::fuzzops::corpus_part("fuzz_corpus", "fz_sim", "C05", crate::fuzzops::sim_target)],
+        }), systematic_part(judge_c05), legal_under_faults_part(), long_sessions_part(judge_c05), wall_clock_part(judge_c05), password_sessions_part(), crate::fuzzops::corpus_part("fuzz_corpus", "fz_sim", "C05", crate::fuzzops::sim_target)],
         assumptions: vec!["the server model implements MPD's idle rules (client/Process.cxx, client/Idle.cxx): noidle outside idle is ignored without reply, anything but noidle during idle is a protocol violation"],
         selftest: None,
     }
